@@ -19,17 +19,33 @@ const (
 	fPrefixFilter  = 1 << iota // NewIterator(prefix, withUpperBound=false) keeps only keys that have the prefix
 	fNilUpperEmpty             // NewIterator(prefix, true) with no successor prefix (empty / all-0xff) yields nothing
 	fEagerRange                // batch.DeleteRange is expanded at call time into deletes of the keys visible then
-	nFlags         = 3
+	fBufNilPut                 // db.BufferBatch.Put(k, nil) behaves as Delete(k)
+	nFlags         = 4
 )
 
 var flagNames = map[int]string{
 	fPrefixFilter:  "iterator-without-upper-bound-filters-by-prefix",
 	fNilUpperEmpty: "iterator-upper-bound-of-unbounded-prefix-yields-nothing",
 	fEagerRange:    "batch-deleterange-applied-at-call-time-not-at-commit",
+	fBufNilPut:     "bufferbatch-put-of-nil-value-acts-as-delete",
 }
 
 // variant order: fewest flags first, so the most specific explanation names the class
-var variantOrder = []int{1, 2, 4, 3, 5, 6, 7}
+var variantOrder = func() []int {
+	var out []int
+	for bits := 1; bits <= nFlags; bits++ {
+		for f := 1; f < 1<<nFlags; f++ {
+			n := 0
+			for x := f; x != 0; x &= x - 1 {
+				n++
+			}
+			if n == bits {
+				out = append(out, f)
+			}
+		}
+	}
+	return out
+}()
 
 func variantName(flags int) string {
 	var parts []string
@@ -200,7 +216,8 @@ func (it *mIter) inContract() []string {
 }
 
 type mdl struct {
-	flags   int
+	flags    int
+	nilEmpty bool // the harness passes empty values as nil (only matters for fBufNilPut)
 	store   map[string]string
 	closed  bool
 	batches []*mBatch
@@ -208,7 +225,9 @@ type mdl struct {
 	iters   []*mIter
 }
 
-func newModel(flags int) *mdl { return &mdl{flags: flags, store: map[string]string{}} }
+func newModel(flags int, nilEmpty bool) *mdl {
+	return &mdl{flags: flags, nilEmpty: nilEmpty, store: map[string]string{}}
+}
 
 func (m *mdl) batchView(b *mBatch) map[string]string {
 	c := cloneMap(m.store)
@@ -278,6 +297,9 @@ func (m *mdl) batchOp(b *mBatch, o *op) string {
 		case "put":
 			v := o.V
 			b.buf[o.K] = &v
+			if m.flags&fBufNilPut != 0 && m.nilEmpty && v == "" {
+				b.buf[o.K] = nil
+			}
 			return "ok"
 		case "del":
 			b.buf[o.K] = nil
